@@ -9,6 +9,7 @@ import (
 	"strings"
 	"sync"
 	"sync/atomic"
+	"syscall"
 	"time"
 
 	"github.com/huderlem/poryscript/emitter"
@@ -146,6 +147,16 @@ type inflightRec struct {
 	src   string
 	opts  Opts
 	start time.Time
+	cpu   time.Duration // CPU time of the process when the compilation started
+}
+
+// processCPU is the user+system CPU time this process has used so far.
+func processCPU() time.Duration {
+	var ru syscall.Rusage
+	if syscall.Getrusage(syscall.RUSAGE_SELF, &ru) != nil {
+		return 0
+	}
+	return time.Duration(ru.Utime.Nano() + ru.Stime.Nano())
 }
 
 var inflight atomic.Pointer[inflightRec]
@@ -168,7 +179,10 @@ func startWatchdog() {
 				continue
 			}
 			why := ""
-			if time.Since(r.start) > hangLimit {
+			// wall-clock alone would suspect a hang whenever the machine is oversubscribed: a spinning
+			// compilation also burns CPU, so both must have passed (a compilation blocked without using
+			// CPU is suspected after ten times the limit)
+			if wall := time.Since(r.start); wall > hangLimit && (processCPU()-r.cpu > hangLimit/2 || wall > 10*hangLimit) {
 				why = fmt.Sprintf("a compilation has been running for more than %v", hangLimit)
 			} else {
 				var ms runtime.MemStats
@@ -218,7 +232,7 @@ func init() {
 func Compile(src string, o Opts) (res Result) {
 	res.Stage = "parse"
 	if inflight.Load() == nil { // (nested use from checkHang's goroutine keeps the outer record)
-		inflight.Store(&inflightRec{src: src, opts: o, start: time.Now()})
+		inflight.Store(&inflightRec{src: src, opts: o, start: time.Now(), cpu: processCPU()})
 		defer inflight.Store(nil)
 	}
 	setBudget(int64(4*len(src) + 256))
